@@ -702,6 +702,11 @@ impl Kanata {
     pub fn handle_input_event(&mut self, event: &KeyEvent) -> Result<()> {
         log::debug!("process recv ev {event:?}");
         let evc: u16 = event.code.into();
+        if usize::from(evc) >= kanata_parser::layers::KEYS_IN_ROW {
+            // OsCode::KEY_MAX is a valid OsCode but has no column in the layout.
+            // It can never be a mapped key, so there is nothing to do for it.
+            return Ok(());
+        }
         self.ticks_since_idle = 0;
         let kbrn_ev = match event.value {
             KeyValue::Press => {
